@@ -12,6 +12,7 @@ CONSTANTS
   MaxBlockWeight = 250
   MineWeight = 120
   FeeFirst = TRUE
+  StemRecheck = "always"
   FeeOnRemainder = TRUE
   EvictMode = "any"
   ReconcileMature = TRUE
